@@ -190,6 +190,132 @@ def blob(fn, variant, closure=None):
             "contract": "    ensures blob_post(i@, len as int, r, %s)," % get}
 
 
+ROUNDTRIP = r'''
+// ---------------------------------------------------------------------------------------------------------------
+// The property as stated (C04), for ServerHello: encoding a value per RFC 5246 7.4.1.3 and parsing the body returns
+// exactly that value - every integer field, the random, presence/absence of session id and extension block, byte for
+// byte - and consumes the body entirely.  Corollary of sh12_post alone.
+pub open spec fn enc_u16(n: int) -> Seq<u8> { seq![(n / 256) as u8, (n % 256) as u8] }
+pub open spec fn enc_sh(v: u16, random: Seq<u8>, sid: Option<Seq<u8>>, c: u16, co: u8, ext: Option<Seq<u8>>) -> Seq<u8> {
+    let s = match sid { Some(x) => x, None => Seq::<u8>::empty() };
+    let e = match ext { Some(x) => enc_u16(x.len() as int) + x, None => Seq::<u8>::empty() };
+    enc_u16(v as int) + random + seq![s.len() as u8] + s + enc_u16(c as int) + seq![co] + e
+}
+proof fn lemma_server_hello_roundtrip(v: u16, random: Seq<u8>, sid: Option<Seq<u8>>, c: u16, co: u8, ext: Option<Seq<u8>>, r: IResult<&[u8], TlsServerHelloContents>)
+    requires random.len() == 32, sid is Some ==> 1 <= sid->Some_0.len() <= 32, ext is Some ==> ext->Some_0.len() <= 65535,
+        sh12_post(enc_sh(v, random, sid, c, co, ext), true, r),
+    ensures r is Ok, r->Ok_0.0@.len() == 0,
+        r->Ok_0.1.version.0 == v, r->Ok_0.1.random@ =~= random, r->Ok_0.1.cipher.0 == c, r->Ok_0.1.compression.0 == co,
+        (match sid { Some(x) => r->Ok_0.1.session_id is Some && r->Ok_0.1.session_id->Some_0@ =~= x, None => r->Ok_0.1.session_id is None }),
+        (match ext { Some(x) => r->Ok_0.1.ext is Some && r->Ok_0.1.ext->Some_0@ =~= x, None => r->Ok_0.1.ext is None }),
+{
+    let b = enc_sh(v, random, sid, c, co, ext);
+    let s = match sid { Some(x) => x, None => Seq::<u8>::empty() };
+    let n = s.len() as int;
+    let o = 35 + n;
+    assert(b.len() >= o + 3);
+    assert(b[0] == ((v as int) / 256) as u8 && b[1] == ((v as int) % 256) as u8);
+    assert(be16s(b, 0) == v as int);
+    assert(b.subrange(2, 34) =~= random);
+    assert(b[34] == n as u8);
+    if n > 0 { assert(b.subrange(35, 35 + n) =~= s); }
+    assert(b[o] == ((c as int) / 256) as u8 && b[o + 1] == ((c as int) % 256) as u8);
+    assert(be16s(b, o) == c as int);
+    assert(b[o + 2] == co);
+    match ext {
+        Some(x) => {
+            let m = x.len() as int;
+            assert(b.len() == o + 3 + 2 + m);
+            assert(b[o + 3] == (m / 256) as u8 && b[o + 4] == (m % 256) as u8);
+            assert(be16s(b, o + 3) == m);
+            assert(b.subrange(o + 5, o + 5 + m) =~= x);
+        }
+        None => { assert(b.len() == o + 3); }
+    }
+}
+
+// ... and for ClientHello (RFC 5246 7.4.1.2): all cipher-suite ids and compression ids in order, for every list length
+pub open spec fn enc_ids(ids: Seq<u16>) -> Seq<u8>
+    decreases ids.len()
+{
+    if ids.len() == 0 { Seq::<u8>::empty() } else { enc_ids(ids.drop_last()) + enc_u16(ids.last() as int) }
+}
+proof fn lemma_enc_ids(ids: Seq<u16>)
+    ensures enc_ids(ids).len() == 2 * ids.len(),
+        forall|k: int| 0 <= k < ids.len() ==> be16s(enc_ids(ids), 2 * k) == #[trigger] ids[k] as int,
+    decreases ids.len()
+{
+    if ids.len() > 0 {
+        let pre = ids.drop_last();
+        lemma_enc_ids(pre);
+        let e = enc_ids(ids);
+        let x = ids.last() as int;
+        assert(e =~= enc_ids(pre) + enc_u16(x));
+        assert forall|k: int| 0 <= k < ids.len() implies be16s(e, 2 * k) == #[trigger] ids[k] as int by {
+            if k < pre.len() {
+                assert(e[2 * k] == enc_ids(pre)[2 * k] && e[2 * k + 1] == enc_ids(pre)[2 * k + 1]);
+                assert(pre[k] == ids[k]);
+            } else {
+                assert(e[2 * k] == (x / 256) as u8 && e[2 * k + 1] == (x % 256) as u8);
+            }
+        }
+    }
+}
+pub open spec fn enc_ch(v: u16, random: Seq<u8>, sid: Option<Seq<u8>>, ids: Seq<u16>, comps: Seq<u8>, ext: Option<Seq<u8>>) -> Seq<u8> {
+    let s = match sid { Some(x) => x, None => Seq::<u8>::empty() };
+    let e = match ext { Some(x) => enc_u16(x.len() as int) + x, None => Seq::<u8>::empty() };
+    enc_u16(v as int) + random + seq![s.len() as u8] + s + enc_u16(2 * ids.len() as int) + enc_ids(ids) + seq![comps.len() as u8] + comps + e
+}
+#[verifier::rlimit(300)]
+proof fn lemma_client_hello_roundtrip(v: u16, random: Seq<u8>, sid: Option<Seq<u8>>, ids: Seq<u16>, comps: Seq<u8>, ext: Option<Seq<u8>>, r: IResult<&[u8], TlsClientHelloContents>)
+    requires random.len() == 32, sid is Some ==> 1 <= sid->Some_0.len() <= 32, ids.len() <= 32767, comps.len() <= 255,
+        ext is Some ==> ext->Some_0.len() <= 65535,
+        ch_post(enc_ch(v, random, sid, ids, comps, ext), r),
+    ensures r is Ok, r->Ok_0.0@.len() == 0,
+        r->Ok_0.1.version.0 == v, r->Ok_0.1.random@ =~= random,
+        (match sid { Some(x) => r->Ok_0.1.session_id is Some && r->Ok_0.1.session_id->Some_0@ =~= x, None => r->Ok_0.1.session_id is None }),
+        r->Ok_0.1.ciphers@.len() == ids.len(), forall|k: int| 0 <= k < ids.len() ==> (#[trigger] r->Ok_0.1.ciphers@[k]).0 == ids[k],
+        r->Ok_0.1.comp@.len() == comps.len(), forall|k: int| 0 <= k < comps.len() ==> (#[trigger] r->Ok_0.1.comp@[k]).0 == comps[k],
+        (match ext { Some(x) => r->Ok_0.1.ext is Some && r->Ok_0.1.ext->Some_0@ =~= x, None => r->Ok_0.1.ext is None }),
+{
+    let b = enc_ch(v, random, sid, ids, comps, ext);
+    let s = match sid { Some(x) => x, None => Seq::<u8>::empty() };
+    let e = match ext { Some(x) => enc_u16(x.len() as int) + x, None => Seq::<u8>::empty() };
+    let n = s.len() as int;
+    let cl = 2 * ids.len() as int;
+    let oc = 37 + n;
+    let om = oc + cl + 1;
+    let ml = comps.len() as int;
+    lemma_enc_ids(ids);
+    assert(b.len() == om + ml + e.len());
+    assert(b[0] == ((v as int) / 256) as u8 && b[1] == ((v as int) % 256) as u8);
+    assert(be16s(b, 0) == v as int);
+    assert(b.subrange(2, 34) =~= random);
+    assert(b[34] == n as u8);
+    if n > 0 { assert(b.subrange(35, 35 + n) =~= s); }
+    assert(b[oc - 2] == (cl / 256) as u8 && b[oc - 1] == (cl % 256) as u8);
+    assert(be16s(b, oc - 2) == cl);
+    assert(b.subrange(oc, oc + cl) =~= enc_ids(ids));
+    assert forall|k: int| 0 <= k < ids.len() implies be16s(b, oc + 2 * k) == #[trigger] ids[k] as int by {
+        assert(b[oc + 2 * k] == enc_ids(ids)[2 * k] && b[oc + 2 * k + 1] == enc_ids(ids)[2 * k + 1]);
+    }
+    assert(b[om - 1] == ml as u8);
+    assert forall|k: int| 0 <= k < ml implies b[om + k] == #[trigger] comps[k] by {}
+    match ext {
+        Some(x) => {
+            let m = x.len() as int;
+            assert(b[om + ml] == (m / 256) as u8 && b[om + ml + 1] == (m % 256) as u8);
+            assert(be16s(b, om + ml) == m);
+            assert(b.subrange(om + ml + 2, om + ml + 2 + m) =~= x);
+        }
+        None => {}
+    }
+    assert forall|k: int| 0 <= k < ids.len() implies (#[trigger] r->Ok_0.1.ciphers@[k]).0 == ids[k] by {
+        assert(be16s(b, oc + 2 * k) == ids[k] as int);
+    }
+}
+'''
+
 UNIT = {
     "name": "hellos",
     "needs_expanded": True,
@@ -318,5 +444,5 @@ UNIT = {
          "splices": [{"at_start": True, "text": "    proof { reveal_with_fuel(be_val, 3); }"}],
          "contract": "    ensures sh_msg_post(i@, r),"},
     ],
-    "epilogue": "",
+    "epilogue": ROUNDTRIP,
 }
